@@ -1,4 +1,127 @@
-import CosetModel.Api
+/-
+  C03 — to-be-signed bytes are exactly RFC 8152 Sig_structure.
+-/
+import CosetProofs.Structures
 namespace Coset.Props.C03
+open Coset Coset.Cbor Coset.Spec
+
+/-- the three context strings are the RFC's (the model's strings are regenerated from the source each run). -/
+theorem contexts : SignatureContext.text .coseSignature = ctxSignature ∧ SignatureContext.text .coseSign1 = ctxSignature1 ∧
+    SignatureContext.text .counterSignature = ctxCounterSignature := by decide
+
+theorem contexts_distinct : [ctxSignature, ctxSignature1, ctxCounterSignature].Nodup := by decide
+
+/-- C03 core: the general structure function, `sign_protected` present exactly when supplied. -/
+theorem sig_structure (ctx : SignatureContext) (body : ProtectedHeader) (aad payload b : Bytes)
+    (hb : ProtectedHeader.cborBstr body = .ok (.bytes b)) :
+    sigStructureData ctx body none aad payload = .ok (specStruct ctx.text [b, aad, payload]) ∧
+    ∀ sp s, ProtectedHeader.cborBstr sp = .ok (.bytes s) →
+      sigStructureData ctx body (some sp) aad payload = .ok (specStruct ctx.text [b, s, aad, payload]) :=
+  ⟨(sigStructure_spec ctx body none aad payload b hb).1 rfl,
+   fun sp s hs => (sigStructure_spec ctx body (some sp) aad payload b hb).2 sp s rfl hs⟩
+
+/-- COSE_Sign1: context "Signature1", no signer slot, embedded payload (empty when absent). -/
+theorem sign1_tbs (m : CoseSign1) (aad b : Bytes) (hb : ProtectedHeader.cborBstr m.protected_ = .ok (.bytes b)) :
+    m.tbsData aad = .ok (specStruct ctxSignature1 [b, aad, m.payload.getD []]) := by
+  have := (sig_structure .coseSign1 m.protected_ aad (m.payload.getD []) b hb).1
+  simpa [CoseSign1.tbsData, contexts.2.1] using this
+
+/-- COSE_Sign: context "Signature", the *given signer's* protected header in the third slot. -/
+theorem sign_tbs (m : CoseSign) (sig : CoseSignature) (aad b s : Bytes)
+    (hb : ProtectedHeader.cborBstr m.protected_ = .ok (.bytes b)) (hs : ProtectedHeader.cborBstr sig.protected_ = .ok (.bytes s)) :
+    m.tbsData aad sig = .ok (specStruct ctxSignature [b, s, aad, m.payload.getD []]) := by
+  have := (sig_structure .coseSignature m.protected_ aad (m.payload.getD []) b hb).2 sig.protected_ s hs
+  simpa [CoseSign.tbsData, contexts.1] using this
+
+/-- detached payload: refused (documented panic) iff a payload is embedded; otherwise it occupies the payload slot. -/
+theorem sign1_tbs_detached (m : CoseSign1) (payload aad b : Bytes) (hb : ProtectedHeader.cborBstr m.protected_ = .ok (.bytes b)) :
+    (m.payload.isSome = true → m.tbsDetachedData payload aad = .panic .assertFailed) ∧
+    (m.payload = none → m.tbsDetachedData payload aad = .ok (specStruct ctxSignature1 [b, aad, payload])) := by
+  constructor
+  · intro h; simp [CoseSign1.tbsDetachedData, h]
+  · intro h
+    have := (sig_structure .coseSign1 m.protected_ aad payload b hb).1
+    simpa [CoseSign1.tbsDetachedData, h, contexts.2.1] using this
+
+theorem sign_tbs_detached (m : CoseSign) (sig : CoseSignature) (payload aad b s : Bytes)
+    (hb : ProtectedHeader.cborBstr m.protected_ = .ok (.bytes b)) (hs : ProtectedHeader.cborBstr sig.protected_ = .ok (.bytes s)) :
+    (m.payload.isSome = true → m.tbsDetachedData payload aad sig = .panic .assertFailed) ∧
+    (m.payload = none → m.tbsDetachedData payload aad sig = .ok (specStruct ctxSignature [b, s, aad, payload])) := by
+  constructor
+  · intro h; simp [CoseSign.tbsDetachedData, h]
+  · intro h
+    have := (sig_structure .coseSignature m.protected_ aad payload b hb).2 sig.protected_ s hs
+    simpa [CoseSign.tbsDetachedData, h, contexts.1] using this
+
+/-- a detached payload occupies the slot exactly as the same bytes embedded would. -/
+theorem detached_eq_embedded (m : CoseSign1) (p aad : Bytes) :
+    ({ m with payload := none } : CoseSign1).tbsDetachedData p aad = ({ m with payload := some p } : CoseSign1).tbsData aad := by
+  simp [CoseSign1.tbsDetachedData, CoseSign1.tbsData]
+
+theorem detached_eq_embedded_sign (m : CoseSign) (sig : CoseSignature) (p aad : Bytes) :
+    ({ m with payload := none } : CoseSign).tbsDetachedData p aad sig = ({ m with payload := some p } : CoseSign).tbsData aad sig := by
+  simp [CoseSign.tbsDetachedData, CoseSign.tbsData]
+
+/-- verification hands exactly (stored signature, to-be-signed bytes) to the caller's function and returns its result. -/
+theorem verify_passes {ρ : Type} (m : CoseSign1) (aad : Bytes) (g : Bytes → Bytes → ρ) (t : Bytes) (ht : m.tbsData aad = .ok t) :
+    m.verifySignature aad g = .ok (g m.signature t) := by simp [CoseSign1.verifySignature, ht]
+
+theorem verify_passes_sign {ρ : Type} (m : CoseSign) (which : Nat) (aad : Bytes) (g : Bytes → Bytes → ρ) (sig : CoseSignature) (t : Bytes)
+    (hw : m.signatures[which]? = some sig) (ht : m.tbsData aad sig = .ok t) :
+    m.verifySignature which aad g = .ok (g sig.signature t) := by
+  simp [CoseSign.verifySignature, vindex, hw, ht]
+
+theorem verify_index_out_of_range {ρ : Type} (m : CoseSign) (which : Nat) (aad : Bytes) (g : Bytes → Bytes → ρ)
+    (hw : m.signatures.length ≤ which) : m.verifySignature which aad g = .panic .indexOob := by
+  have : m.signatures[which]? = none := by simp [hw]
+  simp [CoseSign.verifySignature, vindex, this]
+
+/-- the protected slot: stored bytes verbatim for a decoded header; for a built one a zero-length string iff empty, else the encoded map. -/
+theorem protected_slot (orig : Option Bytes) (h : Header) :
+    (∀ d, orig = some d → ProtectedHeader.cborBstr (.mk orig h) = .ok (.bytes d)) ∧
+    (orig = none → h.isEmpty = true → ProtectedHeader.cborBstr (.mk orig h) = .ok (.bytes [])) ∧
+    (orig = none → h.isEmpty = false →
+      ProtectedHeader.cborBstr (.mk orig h) = (Header.toValue h).map (fun v => .bytes (enc v))) := by
+  refine ⟨?_, ?_, ?_⟩
+  · intro d hd; subst hd; exact cborBstr_stored d h
+  · intro ho he; subst ho; exact cborBstr_built_empty h he
+  · intro ho he; subst ho; exact cborBstr_built_nonempty h he
+
+/-- `is_empty` holds exactly when all eight fields are empty / absent. -/
+theorem isEmpty_iff (h : Header) : h.isEmpty = true ↔
+    h.alg = none ∧ h.crit = [] ∧ h.contentType = none ∧ h.keyId = [] ∧ h.iv = [] ∧ h.partialIv = [] ∧ h.counterSignatures = [] ∧ h.rest = [] := by
+  cases h with
+  | mk a c ct k i p cs r =>
+    simp [Header.isEmpty, Header.alg, Header.crit, Header.contentType, Header.keyId, Header.iv, Header.partialIv,
+      Header.counterSignatures, Header.rest, List.isEmpty_iff, Option.isNone_iff_eq_none, and_assoc]
+
+/-- inputs differing in context, either protected slot, AAD or payload — or in the presence of the signer slot — never share bytes. -/
+theorem injective (c1 c2 : SignatureContext) (xs1 xs2 : List Bytes)
+    (hx1 : xs1.length + 1 < 2 ^ 64 ∧ ∀ x ∈ xs1, x.length < 2 ^ 64) (hx2 : xs2.length + 1 < 2 ^ 64 ∧ ∀ x ∈ xs2, x.length < 2 ^ 64)
+    (h : specStruct c1.text xs1 = specStruct c2.text xs2) : c1 = c2 ∧ xs1 = xs2 := by
+  have v : ∀ c : SignatureContext, Utf8.valid c.text = true ∧ c.text.length < 2 ^ 64 := by intro c; cases c <;> decide
+  obtain ⟨hc, hx⟩ := specStruct_injective _ _ _ _ (v c1) (v c2) hx1 hx2 h
+  refine ⟨?_, hx⟩
+  cases c1 <;> cases c2 <;> first | rfl | (exact absurd hc (by decide))
+
+/-- non-vacuity: the tuple of the crate's `test_sig_structure_data` style — Signature1, protected {1: -7}, aad 0102, payload "a". -/
+example : sigStructureData .coseSign1 (.mk (some [0xa1, 0x01, 0x26]) Header.default) none [1, 2] [0x61] =
+    .ok [0x84, 0x6a, 83, 105, 103, 110, 97, 116, 117, 114, 101, 49, 0x43, 0xa1, 0x01, 0x26, 0x42, 1, 2, 0x41, 0x61] := by decide
+
+#print axioms contexts
+#print axioms contexts_distinct
+#print axioms sig_structure
+#print axioms sign1_tbs
+#print axioms sign_tbs
+#print axioms sign1_tbs_detached
+#print axioms sign_tbs_detached
+#print axioms detached_eq_embedded
+#print axioms detached_eq_embedded_sign
+#print axioms verify_passes
+#print axioms verify_passes_sign
+#print axioms verify_index_out_of_range
+#print axioms protected_slot
+#print axioms isEmpty_iff
+#print axioms injective
 
 end Coset.Props.C03
